@@ -30,6 +30,10 @@ KERNELS = {
     'C06': ['convolve', 'convolve_u8', 'convolve1d', 'convolve_3d', 'gaussian_filter', 'gaussian_filter_d1',
             'gaussian_filter_d01', 'gaussian_filter1d_d2', 'laplacian_2D'],
     'C07': ['median_filter', 'median_shared_bc', 'rank_filter', 'mean_filter', 'template_match', 'template_match_fl', 'find', 'median_float_bc', 'rank_float_bc', 'mean_filter_bc'],
+    'C09': ['erode_out', 'dilate_out', 'open_out', 'close_out', 'cerode_out', 'tophat_open_out', 'tophat_close_out', 'subm_out',
+            'convolve_out', 'convolve1d_out', 'gaussian_filter_out', 'median_filter_out', 'rank_filter_out', 'mean_filter_out',
+            'template_match_out', 'label_out', 'borders_out', 'hitmiss_out', 'majority_filter_out', 'regmax_out', 'locmin_out',
+            'zoom_out', 'shift_out', 'spline_filter_out'],
     'C13': ['labeled_sum', 'labeled_max', 'labeled_min', 'labeled_size', 'bbox', 'labeled_bbox', 'relabel', 'remove_bordering',
             'remove_regions', 'is_same_labeling', 'filter_labeled', 'borders', 'border', 'bwperim', 'center_of_mass',
             'center_of_mass_labels', 'fullhistogram', 'croptobbox'],
@@ -44,6 +48,8 @@ KERNELS = {
 }
 SLOW = {'haralick', 'haralick_3d'}
 MEDIUM = {'thin', 'zernike_moments', 'lbp', 'lbp_transform', 'daubechies_d8'}
+# C08 speaks about every public function: the union of the above
+KERNELS['C08'] = sorted({k for ks in KERNELS.values() for k in ks})
 RULE = ('per function of the property: the same function on three inputs of different shapes from 4-8 threads; one mix of all the '
         "property's functions on distinct inputs and one on shared inputs; compared bit-for-bit with the sequential results")
 ASSUMPTIONS = ['thread stress samples schedules, it does not enumerate them (see C12 for what is proved about concurrency)']
